@@ -292,6 +292,8 @@ def _map2(f, a, b):
 
 
 def _sx(v):
+    if isinstance(v, _np.ndarray) and v.size == 1:
+        v = v.reshape(-1)[0]
     return v if isinstance(v, Sx) else Sx.const(_ex(v))
 
 
